@@ -25,6 +25,7 @@
 
 import time
 import threading
+from copy import copy
 from collections import OrderedDict
 
 from frappy.datatypes import ArrayOf, BoolType, EnumType, FloatRange, \
@@ -559,6 +560,15 @@ class Module(HasAccessibles):
                     err.report_error = False
                     return  # no updates for repeated errors
                 err = secop_error(err)
+                try:
+                    # store a private copy: the exception itself goes on propagating (nested
+                    # reads, a driver raising the same object again) and its raising_methods,
+                    # i.e. its text, keep changing after the update was sent
+                    stored = copy(err)
+                    stored.raising_methods = list(err.raising_methods or ())
+                    err = stored
+                except Exception:
+                    pass  # an error class which can not be copied: keep the object itself
                 value_err = value, err
             else:
                 if not changed and timestamp < (pobj.timestamp or 0) + pobj.omit_unchanged_within:
